@@ -39,6 +39,18 @@ def gen(rng, index, tier):
         sch = lib.gen_scheme(rng, family=rng.choice(["preset", "grid", "preset_mult", "zeroheavy", "fine", "fine", "cheap_ties"]))
     else:
         sch = lib.gen_scheme(rng, family=rng.choice(["preset", "grid", "grid", "preset_mult", "zeroheavy", "cheap_ties"]))
+    if config[0] in ("parcons", "exact", "cplex", "pulp", "paper") and rng.random() < 0.15:
+        # string names of which some are integer-like: a component made only of integer-like names (a Condorcet
+        # cycle, so that it is really handed to a sub-solver) next to alphabetic names
+        cyc = rng.sample(["1", "2", "3", "4", "10"], rng.choice([3, 3, 4]))
+        alpha = rng.sample(["a", "b", "x7"], rng.choice([1, 2]))
+        raw = []
+        for j in range(rng.choice([3, 3, 4])):
+            rot = j % len(cyc)
+            r = [[e] for e in cyc[rot:] + cyc[:rot]]
+            r = ([[a] for a in alpha] + r) if rng.random() < 0.8 else (r + [[a] for a in alpha])
+            raw.append(r)
+        meta = {"family": "mixed_cycle", "kind": "str_mixed", "n": len(cyc) + len(alpha), "m": len(raw)}
     amo = rng.random() < 0.5
     if config[0] in ("exact", "cplex") and config[1] == 1:
         amo = True  # optimize=True with all rankings requested is a documented IncompatibleArgumentsException
